@@ -907,7 +907,9 @@ pub fn c14(tier: Tier) -> i32 {
     let mut res = run_cases_subprocess_with_timeout(&wctx, 1, rounds, 10, Some(120));
     // stream 2: churn rounds (cache growth by thousands of entries under contention)
     let churn = ctx.scale(36, 1_500);
-    res.merge(run_cases_subprocess_with_timeout(&wctx, 2, churn, 3, Some(120)));
+    if res.violations.is_empty() {
+        res.merge(run_cases_subprocess_with_timeout(&wctx, 2, churn, 3, Some(120)));
+    }
     // Send + Sync probe result is reported by the driver (it is a build-time observation)
     if let Ok(p) = std::env::var("VERIF_SEND_SYNC_PROBE") {
         res.stats.add(&format!("send_sync_probe_{}", p), 1);
